@@ -371,6 +371,7 @@ func otherPillar(m *nom.Momentum) *wallet.KeyPair {
 
 var invalidKinds = []invalidKind{
 	{"bad-signature", nil, func(d *nom.DetailedMomentum) { d.Momentum.Signature[5] ^= 1 }},
+	{"signature-followed-by-an-extra-byte", nil, func(d *nom.DetailedMomentum) { d.Momentum.Signature = append(append([]byte{}, d.Momentum.Signature...), 0) }},
 	{"signed-by-non-elected-pillar", nil, func(d *nom.DetailedMomentum) { resign(d.Momentum, otherPillar(d.Momentum)) }},
 	{"signed-by-user-key", nil, func(d *nom.DetailedMomentum) { resign(d.Momentum, g.User1) }},
 	{"wrong-changes-hash", nil, func(d *nom.DetailedMomentum) {
